@@ -6,6 +6,10 @@ variant: py  -> "b" (read_bytes/write_bytes) | "t" (read_byte/word/long, write_b
          rs  -> "d" (MemoryImage::load/store)
          rs-cpu -> "lmn" (MV [lmn],r / MV r,[lmn]) | "imem" (MV (n),r / MV r,(n) under PRE 0x32)
 Everything needed to re-run a case is in the case; probes/sentinels are pure functions of it.
+
+Generated configuration dimensions beyond the obvious ones: the ORDER of the card-slot calls and of the overlay
+registrations (cfg["seq"]), and -- in 30 % of the configurations -- overlays that OVERLAP each other, the card window
+or the Python ROM image (partially, nested, identical range); overlap spans and their edges are address classes.
 """
 
 from __future__ import annotations
@@ -32,29 +36,59 @@ def _overlaps(lo: int, hi: int, taken: List[Tuple[int, int]]) -> bool:
     return any(lo <= b and hi >= a for a, b in taken)
 
 
+OVERLAP_SIZES = (2, 16, 256, 4096, 0x8000, 0x10000, 0x40000)
+# anchors that put an overlay across / inside / exactly on another overlay-type window (card slot, ROM image)
+OVERLAP_ANCHORS = (0x3FFF0, 0x40000, 0x40000, 0x41FF0, 0x42000, 0x47FFF, 0x48000, 0x4FFF0, 0x4FFFF, 0x30000,
+                   0xBFFF0, 0xC0000, 0xFFF00 - 0x1000)
+
+
+def gen_card_seq(st: Stream, py: bool) -> List[List[Any]]:
+    """Ordered card-slot configuration calls (0..3 of them): the ORDER is a generated dimension."""
+
+    def card() -> List[Any]:
+        c = {"size": st.choice(CARD_SIZES + (65536,)), "k": 6 + st.below(2)}
+        if py:
+            c["writable"] = st.chance(3, 4)
+        return ["card", c]
+
+    r = st.below(16)
+    if r < 3:
+        return []
+    if r < 6:
+        return [card()]
+    if r < 8:
+        return [["slot", False]]
+    if r == 8:
+        return [["slot", True]]
+    if r < 11:
+        return [card(), ["slot", False]]            # card taken out again
+    if r < 14:
+        return [["slot", False], card()]            # card inserted into a slot that was declared empty
+    if r == 14:
+        return [card(), ["slot", st.chance(1, 2)], card()] if st.chance(1, 2) else [card(), card()]
+    return [["slot", False], ["slot", True]] if st.chance(1, 2) else [card(), ["slot", False], ["slot", True]]
+
+
 def gen_cfg(st: Stream, kind: str) -> Dict[str, Any]:
     cfg: Dict[str, Any] = {"model": kind}
     py = kind.startswith("py")
     cpu = kind == "rs-cpu"
     cfg["fill"] = st.choice((None, 1, 2))
-    taken: List[Tuple[int, int]] = [(M.CARD_LO, M.CARD_HI)]
+    # windows an extra overlay / read-only range must never touch (devices, code, undocumented interplay) ...
+    hard: List[Tuple[int, int]] = []
+    # ... and overlay-type windows it may only touch when the configuration is an "overlapping overlays" one
+    soft: List[Tuple[int, int]] = [(M.CARD_LO, M.CARD_HI)]
     if kind in ("py-emu",):
-        taken += [(0x2000, 0x200F), (0xA000, 0xAFFF)]
+        hard += [(0x2000, 0x200F), (0xA000, 0xAFFF)]
     if cpu:
-        taken += [(0x2000, 0x2FFF), (0xA000, 0xAFFF), (M.CODE_LO, M.CODE_HI)]
+        hard += [(0x2000, 0x2FFF), (0xA000, 0xAFFF), (M.CODE_LO, M.CODE_HI)]
+    overlap = st.chance(3, 10)
     if py:
         if st.chance(4, 5):
             cfg["rom"] = {"k": 3 + st.below(3), "api": "load_rom"}
-            taken.append((M.ROM_LO, M.ROM_HI))
+            soft.append((M.ROM_LO, M.ROM_HI))
         else:
-            taken.append((0xFFF00, 0xFFFFF))
-        r = st.below(8)
-        if r < 3:
-            pass
-        elif r == 3:
-            cfg["slot"] = False
-        else:
-            cfg["card"] = {"size": st.choice(CARD_SIZES), "k": 6 + st.below(2), "writable": st.chance(3, 4)}
+            hard.append((0xFFF00, 0xFFFFF))
     else:
         cfg["mirror"] = st.chance(3, 4) if cpu else st.chance(1, 2)
         r = st.below(4)
@@ -66,44 +100,62 @@ def gen_cfg(st: Stream, kind: str) -> Dict[str, Any]:
             cfg["rom"] = {"k": 3 + st.below(3), "api": "slice"}
             cfg["map"] = True
         if r:
-            taken.append((M.ROM_LO, M.ROM_HI))
-        if st.chance(1, 2):
-            cfg["card"] = {"size": st.choice(CARD_SIZES), "k": 6 + st.below(2)}
-        s = st.below(8)
-        if s < 2:
-            cfg["slot"] = False
-        elif s == 2:
-            cfg["slot"] = True
+            hard.append((M.ROM_LO, M.ROM_HI))
+    seq = gen_card_seq(st, py)
+    if not py:
         nro = st.choice((0, 0, 0, 1, 2))
         ros = []
         for _ in range(nro):
             size = st.choice((1, 2, 3, 0x100, 0x1000))
             start = (st.choice(OVL_ANCHORS) + st.below(4)) if st.chance(1, 2) else st.below(0xC0000 - size)
             lo, hi = start, start + size - 1
-            if _overlaps(lo, hi, taken):
+            if _overlaps(lo, hi, hard + soft):
                 continue
             if cfg["mirror"] and M.MIRROR_LO <= hi and lo < M.MIRROR_BASE:
                 continue  # a read-only range over non-canonical mirror aliases has no documented meaning
             ros.append([lo, hi])
-            taken.append((lo, hi))
+            hard.append((lo, hi))
         if ros:
             cfg["ro"] = ros
-    novl = st.choice((0, 0, 1, 1, 2))
-    ovl = []
+    novl = st.choice((0, 0, 1, 1, 2)) if not overlap else st.choice((1, 2, 2, 3))
+    ovl: List[Dict[str, Any]] = []
     for _ in range(novl):
-        size = st.choice(OVL_SIZES)
-        start = (st.choice(OVL_ANCHORS) + st.below(4)) if st.chance(2, 3) else st.below(0xC0000 - size)
+        if overlap and st.chance(3, 4):
+            # overlapping overlays: across the edge of / inside / exactly equal to / around another overlay
+            size = st.choice(OVERLAP_SIZES)
+            if ovl and st.chance(1, 2):
+                o = st.choice(ovl)
+                base = st.choice((o["start"], o["start"] + o["size"] - 1, o["start"] + o["size"] // 2,
+                                  o["start"] - size // 2))
+                if st.chance(1, 4):
+                    size = o["size"]
+                    base = o["start"]
+            else:
+                base = st.choice(OVERLAP_ANCHORS)
+                if st.chance(1, 3):
+                    base -= st.below(min(size, 0x100))
+            start = max(0, base)
+        else:
+            size = st.choice(OVL_SIZES)
+            start = (st.choice(OVL_ANCHORS) + st.below(4)) if st.chance(2, 3) else st.below(0xC0000 - size)
         lo, hi = start, start + size - 1
-        if _overlaps(lo, hi, taken):
+        if hi > M.EXT_MASK or _overlaps(lo, hi, hard):
+            continue
+        if not overlap and _overlaps(lo, hi, soft):
             continue
         if not py and cfg.get("mirror") and M.MIRROR_LO <= hi and lo <= M.MIRROR_HI:
             # overlays inside the mirror window: the documentation does not say whether overlay lookup
             # happens before or after mirroring -> not generated (listed as an assumption)
             continue
         ovl.append({"kind": st.choice(("ram", "rom")), "start": lo, "size": size, "k": 8 + st.below(3)})
-        taken.append((lo, hi))
+        if not overlap:
+            soft.append((lo, hi))
     if ovl:
         cfg["ovl"] = ovl
+    # registration order of the overlays relative to the card-slot calls (and to each other) is generated too
+    for i in range(len(ovl)):
+        seq.insert(st.below(len(seq) + 1), ["ovl", i])
+    cfg["seq"] = seq
     return cfg
 
 
@@ -112,14 +164,21 @@ def _edges(m: M.Model) -> List[int]:
     for lo, hi, name, cls, _ in m.regions:
         pts.append(lo)
         pts.append(hi + 1)
-    card = m.cfg.get("card")
-    if card:
-        pts.append(M.CARD_LO + card["size"])
+    for stp in M.steps(m.cfg):
+        if stp[0] == "card":
+            pts.append(M.CARD_LO + stp[1]["size"])
+    for lo, hi in m.ovlp_spans:
+        pts += [lo, hi + 1]
+    if m.cpu or m.emu:
+        # the device register block inside internal memory (KOL/KOH/KIL at 0xF0-0xF2, E-port/SIO above):
+        # wide accesses that start below it and reach into it, or start inside and run out of it
+        pts += [INT + 0xF0, INT + 0xF3]
     return pts
 
 
 def _areas(m: M.Model) -> List[Tuple[int, int]]:
     areas = [(lo, hi) for lo, hi, name, cls, _ in m.regions if cls != "dev"]
+    areas += list(m.ovlp_spans) * 2
     areas += [(0x00000, 0x3FFFF), (0x50000, 0x7FFFF), (0x80000, 0xB7FFF), (0xB8000, 0xBFFFF), (0xC0000, 0xFFFFF),
               (M.CARD_LO, M.CARD_HI)]
     return areas
